@@ -287,3 +287,16 @@ def merge_partials(parts):
         merge_extra(out["extra"], p["extra"])
         out["shard_wall_s"].append(round(p["wall_s"], 2))
     return out
+
+
+PROCESS_ZONES = ["UTC0", "JST-9", "EST5EDT,M3.2.0,M11.1.0", "NZST-12NZDT,M9.5.0,M4.1.0/3"]
+
+
+def set_process_time_zone(ctx):
+    """Configuration: the process' local time zone. Nothing the library computes for the properties may depend on it (naive datetimes and
+    offset-free time strings mean UTC), so each shard runs under another zone; a replay re-installs the zone of the shard that recorded the case."""
+    import time
+    tz = PROCESS_ZONES[ctx.shard % len(PROCESS_ZONES)]
+    os.environ["TZ"] = tz
+    time.tzset()
+    ctx.note_set("process_time_zones", tz)
